@@ -364,6 +364,11 @@ SKELETONS = [
     ("local-group-in-recursion", "s : (int -> int) = n =>\n  if n == 9001\n  then 9002\n  else (\n    a = n - 9003\n    b = s a\n    n + b\n  )\ns 9004", {9004: (0, 3), 9003: (1, 1), 9001: (0, 0)}),
     ("function-with-local-group-passed-on", "twice = (f : int -> int) => (x : int) => f (f x)\ntwice ((n : int) => (a = n + 9001; b = a * 9002; n + b)) 9003", {}),
     ("three-definitions-under-two-binders", "k = (x : int) => (y : int) => (a = x - 9001; b = y * 9002; c = a + b; x * c - y)\nap = (g : int -> int -> int) => (u : int) => g u (g 9003 u)\nap k 9004", {}),
+    # a self-recursive definition that is NOT the last of its group and uses a later sibling after at
+    # least one recursive call (S-C01-03: evaluator; S-C06-03: normalizer)
+    ("recursion-then-later-sibling", "f : (int -> int) = n => if n <= 9001 then k else f (n - 9002)\nk = 9003\nf 9004", {9004: (0, 3), 9002: (1, 1), 9001: (0, 0)}),
+    ("recursion-calls-later-function", "f : (int -> int) = n => if n == 9001 then 9002 else if n == 9003 then g 9004 else f (n - 9005)\ng : (int -> int) = m => m + 9006\nf 9007",
+     {9007: (0, 3), 9005: (1, 1), 9001: (0, 0), 9003: (1, 1)}),
     ("forward-function-reference", "a : (int -> int) = (n : int) => b (n + 9001)\nb : (int -> int) = (n : int) => n * 9002\na 9003", {}),
 ]
 
@@ -408,6 +413,20 @@ def instantiate(j, model, syms):
     if isinstance(j, list):
         return [instantiate(x, model, syms) for x in j]
     return j
+
+
+def skeleton_inputs(H):
+    """(name, source, builder, syms, assumptions, info) for every skeleton the front end accepts:
+    builder() gives the elaborated term with symbolic literals."""
+    replay = H.get_replay()
+    for name, src, ranges in SKELETONS:
+        r = replay.call({"op": "pipeline", "source": src, "run": False})
+        if r.get("stage") != "done":
+            H.inconclusive.append("skeleton %s is not accepted by the front end: %s" % (name, r.get("err")))
+            continue
+        syms, assumptions = {}, []
+        sj = symbolize(r["term"], syms, ranges, assumptions)
+        yield name, src, (lambda sj=sj, syms=syms: build_symbolic(sj, syms, {}, {})), syms, assumptions, (lambda m, sj=sj, syms=syms, name=name: {"t": instantiate(sj, m, syms), "skeleton": name})
 
 
 def run_skeletons(H, quick):
